@@ -22,7 +22,7 @@ def run(ctx):
     quick = ctx.tier == "quick"
     recs = []
     for j, cfg in enumerate(("MC_TypedProg_inj.cfg", "MC_TypedProg_injc.cfg")):
-        r, rr = derive(cfg, (3 if quick else 60), 8, ctx.seed + j, f"c05{j}")
+        r, rr = derive(cfg, (3 if quick else 10), 8, ctx.seed + j, f"c05{j}")
         ctx.tlc_stats(r, f"TypedProg.tla with Inject ({cfg})")
         recs += [x for x in rr if x["status"] == "static-error"]
     # stratify: injected kind x depth x operator x operand types
